@@ -571,6 +571,13 @@ func (t *ART) Reset() {
 	t.size = 0
 	t.len = 0
 	t.allocator.nodeAllocator.Reset()
+	// the addresses on the free lists point into the arena that has just been released
+	t.allocator.nodeAllocator.freeNode4 = t.allocator.nodeAllocator.freeNode4[:0]
+	t.allocator.nodeAllocator.freeNode16 = t.allocator.nodeAllocator.freeNode16[:0]
+	t.allocator.nodeAllocator.freeNode48 = t.allocator.nodeAllocator.freeNode48[:0]
+	t.allocator.nodeAllocator.unusedNode4 = t.allocator.nodeAllocator.unusedNode4[:0]
+	t.allocator.nodeAllocator.unusedNode16 = t.allocator.nodeAllocator.unusedNode16[:0]
+	t.allocator.nodeAllocator.unusedNode48 = t.allocator.nodeAllocator.unusedNode48[:0]
 	t.allocator.vlogAllocator.Reset()
 	t.lastTraversedNode.Store(arena.NullU64Addr)
 	t.SnapshotSeqNo++
